@@ -11,29 +11,32 @@ Lemma positions_map {V} (f : entry V -> entry V) (Hf : forall e, fst (f e) = fst
   positions k (map f l) = positions k l.
 Proof. unfold positions. rewrite <- map_rev. now apply pos_rev_map. Qed.
 
-Lemma wf_poke_root p r b : wf b -> wf (poke_root p r b).
-Proof.
-  intros [Hn [Hnd H]]. unfold poke_root. split; cbn.
-  - now rewrite map_length.
-  - split; auto. intros k. rewrite positions_map; auto.
-    intros e. destruct (Nat.eqb (a_ptr (snd e)) p); reflexivity.
-Qed.
-
-Lemma wf_poke_bal p v b : wf b -> wf (poke_bal p v b).
-Proof.
-  intros [Hn [Hnd H]]. unfold poke_bal. split; cbn.
-  - now rewrite map_length.
-  - split; auto. intros k. rewrite positions_map; auto.
-    intros e. destruct (Nat.eqb (a_ptr (snd e)) p); reflexivity.
-Qed.
-
 (** [dwf] only depends on the buffer, cache, heap and handles *)
 Lemma dwf_fields d d' : dwf d -> d_buf d' = d_buf d -> d_cache d' = d_cache d -> d_heap d' = d_heap d ->
   d_handles d' = d_handles d -> dwf d'.
 Proof. intros H E1 E2 E3 E4. unfold dwf, obj in *. now rewrite E1, E2, E3, E4. Qed.
 
+Lemma dwf_fields' d d' : dwf d -> d_buf d' = d_buf d -> d_cache d' = d_cache d -> d_heap d' = d_heap d ->
+  d_handles d' = d_handles d -> dwf d'.
+Proof. apply dwf_fields. Qed.
+
 Lemma dwf_set_buf d b : dwf d -> wf b -> dwf (set_buf d b).
 Proof. intros (Wb & R) W. split; auto. Qed.
+
+Lemma wf_poke_buf p g b : wf b -> wf (poke_buf p g b).
+Proof.
+  intros [Hn [Hnd H]]. unfold poke_buf. split; cbn.
+  - now rewrite map_length.
+  - split; auto. intros k. rewrite positions_map; auto.
+    intros e. destruct (Nat.eqb (a_ptr (snd e)) p); reflexivity.
+Qed.
+
+Lemma dwf_poke d p g : dwf d -> dwf (poke d p g).
+Proof.
+  intros W. unfold poke.
+  eapply (dwf_fields' (set_buf d (poke_buf p g (d_buf d)))); try reflexivity.
+  apply dwf_set_buf; auto. apply wf_poke_buf. apply W.
+Qed.
 
 Lemma dwf_set_obj d o st st' : dwf d -> obj d o = Some st -> wf (s_buf st') ->
   dwf (set_heap d (list_set (d_heap d) o st')).
@@ -63,11 +66,10 @@ Proof.
   destruct (get_state_ptr_ok d1 cid W1) as (cur & Hcur). rewrite Hcur. cbn.
   destruct W1 as (Wb1 & R1).
   destruct cur as [[[p|] [bal rt]]|]; eexists; (split; [reflexivity|]); split; try reflexivity.
-  - eapply dwf_fields; [apply (dwf_set_buf d1 (sb_put (poke_root p trie' (d_buf d1)) (cid, mk_aval p bal trie')));
-                         [split; auto|apply wf_put; now apply wf_poke_root]|..]; reflexivity.
+  - apply dwf_set_buf; [apply dwf_poke; split; auto|]. apply wf_put. apply wf_poke_buf. exact Wb1.
   - eapply dwf_fields; [apply (dwf_set_buf d1 (sb_put (d_buf d1) (cid, mk_aval (d_nptr d1) bal trie')));
                          [split; auto|now apply wf_put]|..]; reflexivity.
-  - eapply dwf_fields; [apply (dwf_set_buf d1 (sb_put (d_buf d1) (cid, mk_aval (d_nptr d1) 0%N trie')));
+  - eapply dwf_fields; [apply (dwf_set_buf d1 (sb_put (d_buf d1) (cid, mk_aval (d_nptr d1) fl0 trie')));
                          [split; auto|now apply wf_put]|..]; reflexivity.
 Qed.
 
@@ -130,6 +132,9 @@ Proof.
 Qed.
 
 (** every operation that does not panic keeps the invariant *)
+Lemma dwf_reopen d t : dwf (reopen_at d t).
+Proof. unfold reopen_at. apply (dwf_fields' (sdb_new t (d_store_a d) (d_store_v d))); [apply dwf_new|..]; reflexivity. Qed.
+
 Theorem dwf_step d o d' : dwf d -> step d o = Ok d' -> dwf d'.
 Proof.
   intros W H.
@@ -139,17 +144,37 @@ Proof.
     pose proof (G (d_trie d) (d_store_a d) (d_store_v d)) as W0;
     assert (S0 : block_snapshot (sdb_new (d_trie d) (d_store_a d) (d_store_v d)) = Ok (mk_bsnap 0 [])) by reflexivity;
     refine (proj1 (step_ext _ _ d _ d' W0 S0 (dwf_ext_self d W) _ H)); cbn;
-    solve [ exact I | intros; discriminate | intros s1 _; split; [cbn; lia|intros c r0 X; discriminate] ]).
-  - cbn in H. destruct (db_update_ok d W) as (d2 & H2 & W2). rewrite H in H2. inversion H2; subst. exact W2.
-  - cbn in H. destruct (db_commit_ok d W) as (d2 & H2 & W2). rewrite H in H2. inversion H2; subst. exact W2.
-  - cbn in H. inversion H; subst. apply dwf_new.
+    solve [ exact I | intros; discriminate | intros; cbn; lia
+          | intros s1 _; split; [cbn; lia|intros c r0 X; discriminate] ]).
+  - (* OUpdate *)
+    cbn in H. destruct (db_update_ok d W) as (d2 & H2 & W2). rewrite H in H2. inversion H2; subst. exact W2.
+  - (* OCommit *)
+    cbn in H. destruct (db_commit_ok d W) as (d2 & H2 & W2). rewrite H in H2. inversion H2; subst. exact W2.
+  - (* OReopen *)
+    cbn in H. inversion H; subst. apply dwf_reopen.
   - (* OAAdd, even through a handle that aliases a buffered entry: keys are untouched *)
     cbn [step] in H. apply bind_ok in H. destruct H as (ah & _ & H). inversion H; subst.
-    eapply dwf_fields; [apply (dwf_set_buf d (poke_bal (ah_ptr ah) (ah_bal ah + v) (d_buf d)) W);
-                        apply wf_poke_bal; apply W|..]; reflexivity.
-  - cbn [step] in H. apply bind_ok in H. destruct H as (ah & _ & H). inversion H; subst.
-    eapply dwf_fields; [apply (dwf_set_buf d (poke_bal (ah_ptr ah) (if (v <=? ah_bal ah)%N then (ah_bal ah - v)%N else (v - ah_bal ah)%N) (d_buf d)) W);
-                        apply wf_poke_bal; apply W|..]; reflexivity.
+    unfold ah_write. eapply dwf_fields'; [eapply dwf_poke; exact W|..]; reflexivity.
+  - (* OASub *)
+    cbn [step] in H. apply bind_ok in H. destruct H as (ah & _ & H). inversion H; subst.
+    unfold ah_write. eapply dwf_fields'; [eapply dwf_poke; exact W|..]; reflexivity.
+  - (* OASetF *)
+    cbn [step] in H. apply bind_ok in H. destruct H as (ah & _ & H). inversion H; subst.
+    unfold ah_write. eapply dwf_fields'; [eapply dwf_poke; exact W|..]; reflexivity.
+  - (* OSetCode, even when the embedded State is a buffered object *)
+    cbn [step] in H. apply bind_ok in H. destruct H as (hs & _ & H). inversion H; subst.
+    destruct (hs_ptr hs) as [p|].
+    + eapply dwf_fields'; [eapply dwf_poke; exact W|..]; reflexivity.
+    + eapply dwf_fields'; [exact W|..]; reflexivity.
+  - (* OSetRoot: the buffer is reset *)
+    cbn [step] in H. apply bind_ok in H. destruct H as (t & _ & H). apply bind_ok in H. destruct H as (b & Hb & H).
+    inversion H; subst. destruct (reset_ok (d_buf d) (proj1 W)) as (b' & Hb' & Wb'). rewrite Hb in Hb'. inversion Hb'; subst.
+    eapply dwf_fields'; [apply (dwf_set_buf d b' W Wb')|..]; reflexivity.
+  - (* OReopenAt *)
+    cbn [step] in H. apply bind_ok in H. destruct H as (t & _ & H). inversion H; subst. apply dwf_reopen.
+  - (* OApply *)
+    cbn [step] in H. apply bind_ok in H. destruct H as (d1 & _ & H). apply bind_ok in H. destruct H as (d2 & _ & H).
+    inversion H; subst. apply dwf_reopen.
 Qed.
 
 (** index_wf at block level: every state reachable from a fresh StateDB by any operations
@@ -168,4 +193,114 @@ Theorem update_commit_never_panic t sa sv ops d :
 Proof.
   intros H. assert (W : dwf d) by (eapply dwf_run; eauto; apply dwf_new).
   split; auto. split; [now apply db_update_ok|now apply db_commit_ok].
+Qed.
+
+(** ---- caller-side operations are invisible ---- *)
+(** what every read, export, Update and Commit depends on *)
+Definition same_block_state (d d' : sdb) : Prop :=
+  d_buf d' = d_buf d /\ d_cache d' = d_cache d /\ d_heap d' = d_heap d /\
+  d_trie d' = d_trie d /\ d_store_a d' = d_store_a d /\ d_store_v d' = d_store_v d.
+
+(** taking handles and snapshots, reading code or raw keys, writing raw keys, Reset, and SetCode
+    through a handle whose embedded State is not a buffered object change nothing of it *)
+Theorem caller_side_invisible d o d' :
+  match o with
+  | OAGet _ | OACreate _ | OAReset _ | OGetCode _ | ORawSet _ _ _ | ORawGet _ _ | OSSnap | OSnap | OCSnap _ | OClear => True
+  | OSetCode h _ _ => forall hs p, nth_error (x_hst (d_x d)) h = Some hs -> hs_ptr hs = Some p -> ptr_unused d p
+  | _ => False
+  end ->
+  step d o = Ok d' -> same_block_state d d'.
+Proof.
+  intros Hd H. destruct o; try contradiction; cbn [step] in H.
+  - apply bind_ok in H. destruct H as (s & _ & H). inversion H; subst. repeat split.
+  - apply bind_ok in H. destruct H as (co & _ & H). apply bind_ok in H. destruct H as (st & _ & H).
+    inversion H; subst. repeat split.
+  - inversion H; subst. repeat split.
+  - apply bind_ok in H. destruct H as (cur & _ & H). inversion H; subst. repeat split.
+  - apply bind_ok in H. destruct H as (ah & _ & H). inversion H; subst. repeat split.
+  - apply bind_ok in H. destruct H as (cur & _ & H). destruct cur; inversion H; subst; repeat split.
+  - apply bind_ok in H. destruct H as (hs & Hh & H). apply of_opt_ok in Hh. inversion H; subst.
+    unfold same_block_state. destruct (hs_ptr hs) as [p|] eqn:Ep; cbn;
+      [rewrite (poke_buf_unused p _ (d_buf d) (Hd hs p Hh Ep))|]; repeat split.
+  - apply bind_ok in H. destruct H as (hs & _ & H).
+    destruct (hs_code hs); [inversion H; subst; repeat split|].
+    destruct (f_code (hs_f hs) =? 0)%N; [inversion H; subst; repeat split|].
+    destruct (existsb _ _); inversion H; subst; repeat split.
+  - apply bind_ok in H. destruct H as (hs & _ & H). inversion H; subst. repeat split.
+  - apply bind_ok in H. destruct H as (hs & _ & H). inversion H; subst. repeat split.
+  - inversion H; subst. repeat split.
+Qed.
+
+(** ---- StateDB.SetRoot / Revert, reopening at a persisted root, StateDB.Rollback ---- *)
+Lemma get_state_empty_buffer d a : entries (d_buf d) = [] -> wf (d_buf d) ->
+  get_state d a = Ok (trie_state d a).
+Proof.
+  intros He W. unfold get_state, get_state_ptr. rewrite (get_latest _ a W), He. cbn.
+  destruct (trie_state d a); reflexivity.
+Qed.
+
+(** SetRoot / Revert to a persisted root: the buffer is emptied (uncommitted account writes are
+    discarded), the trie is that root, every account reads as in that trie; the storage cache is
+    NOT touched (the main-chain StateDB, the only one the node calls it on, has none) *)
+Theorem set_root_spec d i t d' : dwf d -> nth_error (x_roots (d_x d)) i = Some t -> step d (OSetRoot i) = Ok d' ->
+  entries (d_buf d') = [] /\ d_trie d' = t /\ d_cache d' = d_cache d /\ d_heap d' = d_heap d /\
+  (forall a, get_state d' a = Ok (trie_state d' a)) /\ dwf d'.
+Proof.
+  intros W Hi H. pose proof (dwf_step _ _ _ W H) as W'. cbn [step] in H. rewrite Hi in H. cbn [of_opt bind] in H.
+  apply bind_ok in H. destruct H as (b & Hb & H). inversion H; subst.
+  destruct (rollback_ok (d_buf d) 0 (proj1 W) (Nat.le_0_l _)) as (b' & R1 & R2 & R3 & R4).
+  unfold sb_reset in Hb. rewrite R1 in Hb. inversion Hb; subst b'.
+  assert (He : entries b = []) by (rewrite R3; reflexivity).
+  split; [exact He|]. split; [reflexivity|]. split; [reflexivity|]. split; [reflexivity|]. split; [|exact W'].
+  intros a. apply get_state_empty_buffer; cbn; auto.
+Qed.
+
+(** a new StateDB / BlockState at a persisted root (NewStateDB, Clone, ChainStateDB.NewBlockState
+    after Apply or SetRoot): empty buffer and cache, reads are the trie's *)
+Theorem reopen_at_spec d t :
+  let d' := reopen_at d t in
+  d_trie d' = t /\ d_cache d' = [] /\ entries (d_buf d') = [] /\ d_store_a d' = d_store_a d /\ d_store_v d' = d_store_v d /\
+  (forall a, get_state d' a = Ok (trie_state d' a)) /\ dwf d'.
+Proof.
+  intros d'. split; [reflexivity|]. split; [reflexivity|]. split; [reflexivity|]. split; [reflexivity|].
+  split; [reflexivity|]. split; [|apply dwf_reopen].
+  intros a. apply get_state_empty_buffer; [reflexivity|apply (dwf_reopen d t)].
+Qed.
+
+Lemma commit_storages_trie cl : forall d d', commit_storages d cl = Ok d' ->
+  d_trie d' = d_trie d /\ d_x d' = d_x d.
+Proof.
+  induction cl as [|[c o] tl IH]; intros d d' H; cbn [commit_storages] in H.
+  - inversion H; subst. auto.
+  - apply bind_ok in H. destruct H as (st & _ & H). apply bind_ok in H. destruct H as (sg & _ & H).
+    apply bind_ok in H. destruct H as (b & _ & H). apply IH in H. cbn in H. exact H.
+Qed.
+(** Commit persists the current in-memory trie: it becomes the newest persisted root *)
+Theorem commit_records_root d d' : db_commit d = Ok d' ->
+  x_roots (d_x d') = x_roots (d_x d) ++ [d_trie d] /\ d_trie d' = d_trie d.
+Proof.
+  unfold db_commit. intros H. apply bind_ok in H. destruct H as (d1 & H1 & H).
+  apply bind_ok in H. destruct H as (sg & _ & H). apply bind_ok in H. destruct H as (b & _ & H).
+  inversion H; subst. cbn. destruct (commit_storages_trie _ _ _ H1) as [A B]. rewrite A, B. auto.
+Qed.
+(** ChainStateDB.Apply: the new block state is opened at the trie Update produced, which is the
+    newest persisted root *)
+Theorem apply_spec d d' : step d OApply = Ok d' ->
+  exists d1 d2, db_update d = Ok d1 /\ db_commit d1 = Ok d2 /\ d_trie d' = d_trie d1 /\
+                x_roots (d_x d') = x_roots (d_x d1) ++ [d_trie d1] /\ d_cache d' = [] /\ entries (d_buf d') = [].
+Proof.
+  cbn [step]. intros H. apply bind_ok in H. destruct H as (d1 & H1 & H). apply bind_ok in H. destruct H as (d2 & H2 & H).
+  inversion H; subst. exists d1, d2. destruct (commit_records_root _ _ H2) as [A B].
+  split; [exact H1|]. split; [exact H2|]. cbn. rewrite A, B. repeat split.
+Qed.
+
+(** StateDB.Rollback to a revision taken by StateDB.Snapshot: the account log is cut back to
+    it, nothing else changes *)
+Theorem sdb_rollback_spec d j rev : dwf d -> nth_error (x_ssnaps (d_x d)) j = Some rev -> rev <= next_idx (d_buf d) ->
+  exists d'', step d (OSRollback j) = Ok d'' /\ entries (d_buf d'') = firstn rev (entries (d_buf d)) /\
+              d_cache d'' = d_cache d /\ d_heap d'' = d_heap d /\ d_trie d'' = d_trie d.
+Proof.
+  intros W Hj Hle. cbn [step]. rewrite Hj. cbn.
+  destruct (rollback_ok (d_buf d) rev (proj1 W) Hle) as (b & R1 & R2 & R3 & R4). rewrite R1. cbn.
+  eexists. split; [reflexivity|]. cbn. auto.
 Qed.
